@@ -188,6 +188,21 @@ fn oracle(cfg: &SchedCfg, run: &SchedRun) -> Option<(String, String)> {
             last_id = last_id.max(id);
         }
     }
+    // C09: the first transformation change re-runs the step-size search (the `has_initial_mass_matrix` flag is consumed by it)
+    if run.init_counters[4] == 1 {
+        let mut prev_id = 0i64;
+        for (d, rec) in run.draws.iter().enumerate() {
+            if let Some(id) = rec.tupd {
+                if id > prev_id {
+                    if rec.counters[4] != 0 {
+                        return Some(("sched.first_change_no_search".into(), format!("first transformation change (id {prev_id} -> {id}) at draw {d} did not re-run the step-size search (has_initial_mass_matrix still set)")));
+                    }
+                    break;
+                }
+                prev_id = prev_id.max(id);
+            }
+        }
+    }
     // after warmup: base step size constant, step size within the jitter band
     if cfg.num_tune >= 1 && (cfg.num_tune as usize) < run.draws.len() && cfg.method != 2 {
         let bar = run.draws[cfg.num_tune as usize - 1].step_size_bar;
